@@ -172,6 +172,38 @@ class Facts:
         self.accounts = {a["path"]: a for a in json.load(open(accp))} if os.path.exists(accp) else {}
         self._callers = None
         self._by_name = None
+        self._canonical_param_names()
+
+    def _canonical_param_names(self):
+        """The rules name parameters as they are spelled on the reference tree (specs/signatures.json, generated by
+        tools/gen_signatures.py). A function whose parameters were merely renamed - same path, same arity, same types in the
+        same positions - is analysed under the reference names, so that a parameter rename is not reported as a change."""
+        verif = os.path.dirname(os.path.dirname(os.path.abspath(__file__)))
+        sp = os.path.join(verif, "specs", "signatures.json")
+        self.renamed_params = {}
+        if not os.path.exists(sp):
+            return
+        try:
+            table = json.load(open(sp)).get(self.meta.get("crate", os.path.basename(self.dir.rstrip("/"))), {})
+        except Exception:
+            return
+        for f in self.fn_list:
+            if f.kind == "const":
+                continue
+            ref = table.get(f.path)
+            if not ref or len(ref) != f.argc:
+                continue
+            cur = [(f.locals[i].get("n"), f.locals[i].get("t")) for i in range(1, f.argc + 1)]
+            if [t for _, t in cur] != [t for _, t in ref]:
+                continue
+            if [n for n, _ in cur] == [n for n, _ in ref]:
+                continue
+            if len({n for n, _ in ref}) != len(ref):
+                continue
+            for i, (rn, _) in enumerate(ref, 1):
+                if rn and f.locals[i].get("n") and f.locals[i]["n"] != rn:
+                    self.renamed_params[(f.path, rn)] = f.locals[i]["n"]
+                    f.locals[i]["n"] = rn
 
     # ---- lookup -------------------------------------------------------
     def fn(self, path):
